@@ -15,7 +15,7 @@ from vf.util import Rng, split_seeds, spec_seeds, replay_spec, short
 ID = 'C03'
 LEVEL = 'exploration'
 TECHNIQUE = 'runtime monitor: reference event recorder vs recorded actions (multiset equality per trace event)'
-RULE = ('generated multi-function / multi-thread programs (38 shapes: loops, recursion, exceptions, generators, '
+RULE = ('generated multi-function / multi-thread programs (40 shapes: loops, recursion, exceptions, generators, coroutines with and without an asyncio event loop, '
         'iterators, with, closures, classes, threads) x 0-8 tracepoints: line tracepoints on executed and '
         'never-executed lines, def lines, the same line number in another file, several tracepoints on one line '
         '(separate triggers or merged as convert_response does), method tracepoints by name, the stage argument spelled out (with a line tracepoint also naming its function), tracepoints that are installed while functions of the program are already running, four action kinds; '
@@ -24,7 +24,7 @@ RULE = ('generated multi-function / multi-thread programs (38 shapes: loops, rec
 ASSUMPTIONS = ['only events CPython delivers to the trace function are in the quantifier; the one case in which the agent '
                'declines a frame itself and this is accepted: the function was entered while no tracepoint at all was installed',
                'method tracepoints always carry method_name (the unnamed form is undocumented)']
-REQUIRE = {'sourceless_runs_with_a_nameless_method_tracepoint': 15, 'reference_events': 50000, 'expected_actions': 2000, 'runs_with_threads': 10, 'colocated_runs': 40,
+REQUIRE = {'runs_with_coroutines': 15, 'sourceless_runs_with_a_nameless_method_tracepoint': 15, 'reference_events': 50000, 'expected_actions': 2000, 'runs_with_threads': 10, 'colocated_runs': 40,
            'method_tracepoint_hits': 100,
            'installed_via_convert_response': 60, 'updated_while_matching': 20, 'twin_file_runs': 60, 'explicit_stage_runs': 60, 'installed_while_program_running': 5}
 
@@ -266,6 +266,8 @@ def case_place(seed, out, spec, wd):
     if rig.escapes:
         out.violation('containment:escape', 'trace handler raised: %s' % rig.escapes[0][2][-300:], witness, replay)
     out.count('reference_events', len(rig.events))
+    if any(x in ('coro_manual', 'asyncio_tasks') for x in prog.shapes):
+        out.count('runs_with_coroutines')
     out.count('all_trace_events', rig.all_events)
     out.count('expected_actions', len(expected))
     out.count('method_tracepoint_hits', method_hits)
